@@ -70,3 +70,8 @@ Definition model_operators : list (string * string) :=
 
 Definition model_make_constant : list string := ["if isinstance(value, _Constant): return value"; "try: return TimestampConstant(value) except (ValueError, TypeError): pass"; "if isinstance(value, str): return StringConstant(value)"; "if isinstance(value, bool): return BooleanConstant(value)"; "if isinstance(value, int): return IntegerConstant(value)"; "if isinstance(value, float): return FloatConstant(value)"; "if isinstance(value, list): return ListConstant(value)"; "else: raise ValueError"].
 Definition model_create_component : list string := ["if isinstance(component_name, StringConstant): return BasicObjectPathComponent(component_name.value, False)"; "if component_name.endswith('_ref'): return ReferenceObjectPathComponent(component_name)"; "if component_name.find('[') != -1: ?parse1 = component_name.split('[') ; return ListObjectPathComponent(parse1[0], parse1[1][:-1])"; "else: return BasicObjectPathComponent(component_name, False)"].
+
+(* ObjectPath.make_object_path as Model/PatternSyntax.make_object_path transcribes it: the string-encoded path is cut at
+   every ':' (first two pieces used) and the second piece at every '.', each piece handed to create_ObjectPathComponent *)
+Definition model_make_object_path : string :=
+  "path_as_parts = lhs.split(':') ; return ObjectPath(path_as_parts[0], path_as_parts[1].split('.'))".
